@@ -19,7 +19,10 @@
 // alone and together; in a template without any block, with a block, in the parent of an included template that
 // extends; the includer and the template in the middle of a nested route have their own m - a macro or
 // from-imported - and u, and call them after the include: in every loop iteration, in the block, after the
-// macro call, in the parent after the overridden block). Every program is rendered by the real engine and
+// macro call, in the parent after the overridden block) x relative names (none; the tag names its target as ./x,
+// ../x, ./d/x, ../../x from a template at top level or in a sub-directory, the denoted template being fine,
+// missing, unparsable, unloadable or failing - only a missing one may be swallowed by ignore missing). Every
+// program is rendered by the real engine and
 // compared with the reference model of model.go (transcribed from the property statement).
 package main
 
@@ -104,6 +107,58 @@ type cas struct {
 	mdef int // see mdefLabel
 	mblk int // 1: the included template defines a block as well (plain: block k; extends: it overrides block k of its parent with parent())
 	isrc int // where the includer's m comes from: 0 its own macro, called as _self.m(); 1 `from 'ulib' import m`, called as m()
+	// relative name (rel == 0: the older cases, every template at top level and named as it is registered): the
+	// include under test names its target relative to the directory of the template it is written in, see relForms
+	rel int
+}
+
+// relForm: the template that holds the include under test is registered as <holderDir>/main (or <holderDir>/mid for
+// the nested routes), the tag names its target as <written><target>, and the target - in whatever state the case
+// says: fine, missing, failing at render, not parsing, failing in the loader - is <targetDir>/<target>. Nothing is
+// ever registered under the name as written, nor under that name taken relative to any other directory.
+type relForm struct{ holderDir, written, targetDir string }
+
+var relForms = []relForm{
+	{},
+	{"", "./", ""},           // from a top-level template
+	{"sd", "./", "sd"},       // from a template in a sub-directory: the same directory
+	{"sd/in", "../", "sd"},   // the directory above, itself a sub-directory
+	{"sd", "../", ""},        // the directory above: top level
+	{"sd", "./in/", "sd/in"}, // a directory below
+	{"sd/in", "../../", ""},  // two levels up
+}
+
+// the directories templates live in
+var relDirs = []string{"", "sd", "sd/in", "zz"}
+
+func dirOf(name string) string {
+	if i := strings.LastIndex(name, "/"); i >= 0 {
+		return name[:i]
+	}
+	return ""
+}
+
+func at(dir, name string) string {
+	if dir == "" {
+		return name
+	}
+	return dir + "/" + name
+}
+
+// names of the templates a case registers: the entry point, the template in the middle of a nested route, the
+// parent of the childblock placement, the target
+func (c cas) names() (mainName, midName, baseName, tgtName string) {
+	rf := relForms[c.rel]
+	mainDir := rf.holderDir
+	if c.place >= pNest0 && c.rel != 0 {
+		// the template in the middle holds the tag; the entry point lives in another directory, so that a name
+		// resolved against the entry point's directory denotes nothing
+		mainDir = ""
+		if rf.holderDir == "" {
+			mainDir = "zz"
+		}
+	}
+	return at(mainDir, "main"), at(rf.holderDir, "mid"), at(mainDir, "base"), at(rf.targetDir, targetName[c.target])
 }
 
 // what the included template defines (a plain template: at its top level; a template that extends: at the top
@@ -165,6 +220,9 @@ func (c cas) key() string {
 	if c.mdef != 0 {
 		k += fmt.Sprintf("/m%d.%d.%d", c.mdef, c.mblk, c.isrc)
 	}
+	if c.rel != 0 {
+		k += fmt.Sprintf("/r%d", c.rel)
+	}
 	if c.hist != 0 {
 		k += fmt.Sprintf("/h%d.%d.%d", c.hist, c.hEng, c.hOpts)
 	}
@@ -225,14 +283,18 @@ type program struct {
 	w      *world
 	ctx    map[string]string
 	padded []string // the templates that get the comment padding in the padded twin (those that hold includes)
+	entry  string   // the template that is rendered
 	// history cases: the templates of the earlier, failing render (entry point `hist`) and its context
 	hw   *world
 	hctx map[string]string
 }
 
 func build(c cas) *program {
-	tn := targetName[c.target]
-	w := &world{tmpls: map[string]*tmpl{}, fails: map[string]string{"bsy": failParse, "bio": failIO}}
+	// tn: the target's name as the include under test writes it; reg: the name it is registered under
+	mainName, midName, baseName, reg := c.names()
+	rf := relForms[c.rel]
+	tn := rf.written + targetName[c.target]
+	w := &world{tmpls: map[string]*tmpl{}, fails: unloadable}
 
 	// the include under test
 	inc := nInclude{name: nameExpr{form: c.name, target: tn}, withOn: c.opts&oW != 0, only: c.opts&oO != 0, ignore: c.opts&oI != 0, sandboxed: c.opts&oS != 0}
@@ -305,9 +367,9 @@ func build(c cas) *program {
 	body = cat(body, one(nText{"("}), prints(",", abcd...), one(nText{")"}))
 	switch c.target { // only what the case can reach is registered (keeps a case cheap)
 	case tPlain:
-		w.tmpls["inc"] = &tmpl{body: body}
+		w.tmpls[reg] = &tmpl{body: body, dir: rf.targetDir}
 	case tExtends:
-		inx := &tmpl{extends: "ibase", body: one(nBlock{"ib", body})}
+		inx := &tmpl{extends: "ibase", body: one(nBlock{"ib", body}), dir: rf.targetDir}
 		ibase := &tmpl{body: cat(one(nText{"IB["}), prints(",", abcd...), one(nText{":"}), one(nBlock{"ib", one(nText{"dflt"})}), idefs, one(nText{"]"}))}
 		if xblk >= 1 { // a block with the name of the block the includer renders after the include
 			ibase.body = append(ibase.body, nBlock{"k", one(nText{"BK"})})
@@ -318,11 +380,11 @@ func build(c cas) *program {
 		case 3:
 			inx.body = append(inx.body, nBlock{"k", []node{nText{"IK["}, nParent{}, nText{"]"}}})
 		}
-		w.tmpls["inx"], w.tmpls["ibase"] = inx, ibase
+		w.tmpls[reg], w.tmpls["ibase"] = inx, ibase
 	case tRenderFail:
-		w.tmpls["brt"] = &tmpl{body: []node{nText{"x"}, nBoom{}}}
+		w.tmpls[reg] = &tmpl{body: []node{nText{"x"}, nBoom{}}, dir: rf.targetDir}
 	case tNestedMissing:
-		w.tmpls["nmi"] = &tmpl{body: []node{nText{"N"}, nInclude{name: nameExpr{form: 0, target: "nop"}}}}
+		w.tmpls[reg] = &tmpl{body: []node{nText{"N"}, nInclude{name: nameExpr{form: 0, target: "nop"}}}, dir: rf.targetDir}
 	}
 
 	// the including template
@@ -380,7 +442,7 @@ func build(c cas) *program {
 	case pChildBlock:
 		// the include stands in a block override of a template that extends; see below
 	default:
-		route := nInclude{name: nameExpr{form: 0, target: "mid"}}
+		route := nInclude{name: nameExpr{form: 0, target: midName}}
 		switch c.place {
 		case pNest1:
 			route.withOn, route.with = true, []withEntry{{key: "b", lit: "Rb"}}
@@ -401,19 +463,20 @@ func build(c cas) *program {
 			midOwn = cat(one(nText{"|"}), midOwn)
 			w.tmpls["dlib"] = lib("DX", "DF")
 		}
-		w.tmpls["mid"] = &tmpl{body: cat(midHead, one(nText{"M["}), one(inc), one(nText{"|"}), prints(",", "a", "b", "c", "d", "q"), midOwn, one(nText{"]"}))}
+		w.tmpls[midName] = &tmpl{body: cat(midHead, one(nText{"M["}), one(inc), one(nText{"|"}), prints(",", "a", "b", "c", "d", "q"), midOwn, one(nText{"]"})), dir: rf.holderDir}
 	}
-	padded := []string{"main", "mid"}
+	padded := []string{mainName, midName}
 	switch {
 	case c.depth == 0 && c.place == pChildBlock:
-		w.tmpls["main"] = &tmpl{extends: "base", body: one(nBlock{"kk", cat(one(inc), local)})}
+		// (with a relative name: the parent lives in the directory of the template that extends it)
+		w.tmpls[mainName] = &tmpl{extends: baseName, body: one(nBlock{"kk", cat(one(inc), local)}), dir: rf.holderDir}
 		baseHead, baseOwn := []node(nil), []node(nil)
 		if c.mdef != 0 { // the parent renders the block that holds the include: its m and u are probed after the block
 			baseHead, baseOwn = macros, cat(one(nText{"|"}), own)
 		}
-		w.tmpls["base"] = &tmpl{body: cat(baseHead, one(nText{"B<"}), one(nBlock{"kk", nil}), one(nText{">"}), prints(",", "a", "b", "c", "d", "q"), baseOwn)}
+		w.tmpls[baseName] = &tmpl{body: cat(baseHead, one(nText{"B<"}), one(nBlock{"kk", nil}), one(nText{">"}), prints(",", "a", "b", "c", "d", "q"), baseOwn), dir: rf.holderDir}
 	case c.depth == 0:
-		w.tmpls["main"] = &tmpl{body: cat(macros, defs, placed, after)}
+		w.tmpls[mainName] = &tmpl{body: cat(macros, defs, placed, after), dir: dirOf(mainName)}
 	default:
 		// The includer is part of an extends chain: main [extends pg] extends lay. Every extending template
 		// overrides block t (so the layout always renders with block definitions from above); block k, which
@@ -442,7 +505,7 @@ func build(c cas) *program {
 		}
 		padded = []string{"main", "pg", "lay", "mid"}
 	}
-	p := &program{w: w, ctx: ctx, padded: padded}
+	p := &program{w: w, ctx: ctx, padded: padded, entry: mainName}
 	if c.hist != 0 {
 		p.hw, p.hctx = buildHist(c, w, tn)
 		p.padded = append(p.padded, "hist", "hmid")
@@ -517,12 +580,23 @@ var errIO = errors.New("simulated I/O failure")
 type ioLoader struct{}
 
 func (ioLoader) Load(name string) (string, error) {
-	if name == "bio" {
+	if unloadable[name] == failIO {
 		return "", errIO
 	}
 	return "", fmt.Errorf("%w: %s", twig.ErrTemplateNotFound, name)
 }
-func (ioLoader) Exists(name string) bool { return name == "bio" }
+func (ioLoader) Exists(name string) bool { return unloadable[name] == failIO }
+
+// unloadable: the templates that exist and cannot be loaded (bsy: its source does not parse; bio: the loader fails
+// with an error that is not "not found"), one of each in every directory; badSources: what the array loader holds
+var unloadable, badSources = func() (map[string]string, map[string]string) {
+	u, b := map[string]string{}, map[string]string{}
+	for _, d := range relDirs {
+		u[at(d, "bsy")], u[at(d, "bio")] = failParse, failIO
+		b[at(d, "bsy")] = "x{% if %}"
+	}
+	return u, b
+}()
 
 var pad = "{# " + strings.Repeat("p", 4100) + " #}"
 
@@ -541,7 +615,7 @@ func (r result) String() string {
 func newEngine() *twig.Engine {
 	e := twig.New()
 	e.EnableSandbox(allowAll{})
-	e.RegisterLoader(twig.NewArrayLoader(map[string]string{"bsy": "x{% if %}"}))
+	e.RegisterLoader(twig.NewArrayLoader(badSources))
 	e.RegisterLoader(ioLoader{})
 	e.AddFunction("boom", func(args ...interface{}) (interface{}, error) { return nil, errors.New("boom") })
 	return e
@@ -592,7 +666,7 @@ func runTwig(p *program, padded bool) (res result, sources map[string]string) {
 	if msg := register(e, p.w.tmpls, p.padded, padded, sources); msg != "" {
 		return result{err: msg}, sources
 	}
-	return render(e, "main", p.ctx), sources
+	return render(e, p.entry, p.ctx), sources
 }
 
 // runTwigAfterFailure: the earlier render (template hist, histRounds times; every round must fail) and then
@@ -622,7 +696,7 @@ func runTwigAfterFailure(p *program, padded, sameEngine bool) (earlier []result,
 			return earlier, result{err: msg}, sources
 		}
 	}
-	return earlier, render(e, "main", p.ctx), sources
+	return earlier, render(e, p.entry, p.ctx), sources
 }
 
 func contains(ss []string, s string) bool {
@@ -640,7 +714,7 @@ func model(p *program, quirks int) result {
 	for _, k := range sortedKeys(p.ctx) {
 		sc.set(k, p.ctx[k])
 	}
-	out, ok := p.w.evalTemplate(p.w.tmpls["main"], sc, nil)
+	out, ok := p.w.evalTemplate(p.w.tmpls[p.entry], sc, nil)
 	if !ok {
 		return result{err: "some error"}
 	}
@@ -712,6 +786,13 @@ func runCase(c cas) *vlib.Outcome {
 			o.Counters["includer_in_extends_chain_same_named_block"] = 1
 		}
 	}
+	if c.rel != 0 {
+		o.Class = "relative/" + o.Class
+		o.Counters["relative_name"] = 1
+		if !exists && c.target != tMissing && c.opts&oI != 0 {
+			o.Counters["relative_name_unloadable_target_ignore_missing"] = 1
+		}
+	}
 	if c.mdef != 0 {
 		o.Class = "defines-" + mdefLabel[c.mdef] + "/" + o.Class
 		o.Counters["included_defines_includers_macro_or_module_name"] = 1
@@ -753,11 +834,24 @@ func runCase(c cas) *vlib.Outcome {
 	if c.depth != 0 {
 		where += " (" + c.chainLabel() + ")"
 	}
-	o.Violation = fmt.Sprintf("include %s in placement %s, target %s: got %s, want %s\n  main: %s", printInclude(p.w.tmpls2include(c)), where, targetLabel[c.target], got, want, sources["main"])
-	for _, n := range []string{"pg", "lay", "mid", "base", targetName[c.target], "ibase", "ulib", "dlib", "flib"} {
+	mainName, midName, baseName, reg := c.names()
+	o.Violation = fmt.Sprintf("include %s in placement %s, target %s: got %s, want %s\n  %s: %s", printInclude(p.w.tmpls2include(c)), where, targetLabel[c.target], got, want, mainName, sources[mainName])
+	for _, n := range []string{"pg", "lay", midName, baseName, reg, "ibase", "ulib", "dlib", "flib"} {
 		if s, ok := sources[n]; ok && (n != "ibase" || c.target == tExtends) {
 			o.Violation += fmt.Sprintf("\n  %s: %s", n, s)
 		}
+	}
+	if c.rel != 0 {
+		state := "registered as " + reg
+		switch c.target {
+		case tMissing:
+			state = "no template " + reg
+		case tParseFail:
+			state = reg + " exists and does not parse (" + badSources[reg] + ")"
+		case tIOFail:
+			state = "the loader fails for " + reg + " with an I/O error"
+		}
+		o.Violation += fmt.Sprintf("\n  relative name %s written in a template of directory %q: %s; nothing is registered under the name as written", relForms[c.rel].written+targetName[c.target], relForms[c.rel].holderDir, state)
 	}
 	o.Violation += fmt.Sprintf("\n  context: %v", p.ctx)
 	o.Violation += history
@@ -779,10 +873,10 @@ func same2(got, pred result) bool { return same(got, pred) }
 
 // tmpls2include re-creates the include under test for messages.
 func (w *world) tmpls2include(c cas) nInclude {
-	holder := "main"
+	holder, midName, _, _ := c.names()
 	switch {
 	case c.place >= pNest0:
-		holder = "mid"
+		holder = midName
 	case c.depth != 0 && c.holder == 0:
 		holder = "lay"
 	case c.depth == 2:
@@ -912,6 +1006,48 @@ func enumerate(t *vlib.T) {
 				for place := 0; place < nPlaces; place++ {
 					for _, pd := range []bool{false, true} {
 						emit(cas{target: target, opts: x.opts, withMask: x.withMask, wstyle: x.wstyle, name: nm, place: place, incMask: 3, pad: pd})
+					}
+				}
+			}
+		}
+	}
+	// 1r. relative names: the include under test names its target as ./x, ../x, ./d/x or ../../x from a template at
+	// top level or in a (nested) sub-directory; the target - taken relative to the directory of the template the tag
+	// is written in - is fine, extends, missing, fails at render, does not parse, fails in the loader or includes a
+	// missing template; every option set; every placement (in the nested routes the template in the middle holds
+	// the tag and lives in another directory than the entry point); static and computed names; both tokenizers.
+	// Only a target that does not exist may be swallowed by `ignore missing`.
+	rb := struct{ names, incMasks, setMasks, extras []int }{names: []int{0, 2, 5}, incMasks: []int{3}, setMasks: []int{15}, extras: []int{0}}
+	if t.Thorough() {
+		rb.names, rb.incMasks, rb.setMasks, rb.extras = []int{0, 1, 2, 3, 4, 5}, []int{0, 3}, []int{0, 15}, []int{0, 4}
+	}
+	for rel := 1; rel < len(relForms); rel++ {
+		for target := 0; target < nTargets; target++ {
+			for _, x := range ows {
+				if !((x.withMask == 0 || x.withMask == 3) && (x.wstyle == 0 || x.wstyle == 2)) { // as in 1.
+					continue
+				}
+				for _, nm := range rb.names {
+					for place := 0; place < nPlaces; place++ {
+						for _, pd := range []bool{false, true} {
+							if t.Stopped() {
+								return
+							}
+							if target != tPlain && target != tExtends {
+								emit(cas{target: target, opts: x.opts, withMask: x.withMask, wstyle: x.wstyle, name: nm, place: place, incMask: 3, pad: pd, rel: rel})
+								continue
+							}
+							for _, extra := range rb.extras {
+								if target == tExtends && extra >= 3 {
+									continue // as in 2.
+								}
+								for _, im := range rb.incMasks {
+									for _, sm := range rb.setMasks {
+										emit(cas{target: target, opts: x.opts, withMask: x.withMask, wstyle: x.wstyle, name: nm, place: place, incMask: im, setMask: sm, extra: extra, pad: pd, rel: rel})
+									}
+								}
+							}
+						}
 					}
 				}
 			}
@@ -1169,11 +1305,14 @@ func main() {
 			"the failing render is repeated 3 times and must report an error every time) for every option set and with-map shape of the grid at a reduced set of placements, names and variable sets - the later render must equal the model as if nothing had happened; " +
 			"definitions dimension: the included template (block-free / with a block / extending) defines a macro m, from-imports an m (also `f as m`), imports a module as u, or two of these, while the includer (and the template in the middle of a nested route) " +
 			"has its own m (macro called as _self.m(), or from-imported and called as m()) and its own module u and calls m and u.f after the include (in every loop iteration, in the block, after the macro call, in the parent after the overridden block) - every option set, every placement, every chain shape; " +
+			"relative-name dimension: the tag names its target as ./x, ../x, ./d/x or ../../x from a template at top level, in a sub-directory or in a sub-sub-directory (six forms; in the nested routes the template in the middle holds the tag and lives in another directory than the entry point), " +
+			"the template the name denotes relative to the tag's template being fine (plain / extending), missing, failing at render, unparsable, unloadable (loader I/O error) or including a missing template, nothing being registered under the name as written - every option set, name form, placement and tokenizer; only a missing target may be swallowed by ignore missing; " +
 			"a case is non-trivial when information could flow in either direction (the includer defines a variable, `with` passes one, the included template sets one, runs a loop " +
 			"or defines a block/macro/import, also one with the name of a block of the includer's extends chain or of a macro / module of the includer) or when the target cannot be rendered (missing / failing), which exercises the missing-template handling; a history case is always non-trivial (the earlier render defined a-d and passed a-d to the failing include)",
 		Assumptions: []string{
 			"the reference model (checks/c11/model.go) is a correct transcription of the property statement",
 			"visibility of outer variables and macros inside macros, option orders other than `ignore missing` `with` `only` `sandboxed`, `with` followed by a non-literal, and the value of loop variables after endfor are not fixed by the statement and are not generated",
+			"an include name that starts with ./ or ../ denotes the template at that path relative to the directory of the template the tag is written in (the repository's relative_path_test.go; confirmed by the fine-target cases of the relative-name dimension); what a template registered under the name as written would mean is not generated",
 			"the sandbox policy allows everything here (confinement is C06); sandboxed is exercised only as a context-construction path",
 		},
 		QuickDeadline: 100, ThoroughDeadline: 840,
